@@ -3131,6 +3131,12 @@ again:
 		case METH_DECLINECOUNTER:
 			break;
 		}
+		if (i.v == INSVERB_UNK) {
+			/* an event we've got no instruction for, callers take
+			 * INSVERB_UNK for `need more data', so go on with
+			 * what's left in the buffer */
+			goto again;
+		}
 	}
 	return i;
 }
